@@ -208,4 +208,305 @@ theorem res_balance {r r' : RES α} {prop aux dt : α} (s : ResStep r r' prop au
     have : r'.state.pwrOutElectrical ≤ r'.state.pwrOutElectrical * r'.state.eta := by nlinarith
     rw [abs_of_nonneg (by linarith)]; ring
 
+/-! ### "Nothing cumulative changed" relations (for the `set…` functions) -/
+
+structure FCSame (a b : FC α) : Prop where
+  energyBrake : b.state.energyBrake = a.state.energyBrake
+  energyFuel : b.state.energyFuel = a.state.energyFuel
+  energyLoss : b.state.energyLoss = a.state.energyLoss
+  energyIdleFuel : b.state.energyIdleFuel = a.state.energyIdleFuel
+
+structure GenSame (a b : Gen α) : Prop where
+  energyMechIn : b.state.energyMechIn = a.state.energyMechIn
+  energyElecPropOut : b.state.energyElecPropOut = a.state.energyElecPropOut
+  energyElecAux : b.state.energyElecAux = a.state.energyElecAux
+  energyLoss : b.state.energyLoss = a.state.energyLoss
+
+structure EdrvSame (a b : Edrv α) : Prop where
+  energyElecPropIn : b.state.energyElecPropIn = a.state.energyElecPropIn
+  energyMechPropOut : b.state.energyMechPropOut = a.state.energyMechPropOut
+  energyMechDynBrake : b.state.energyMechDynBrake = a.state.energyMechDynBrake
+  energyElecDynBrake : b.state.energyElecDynBrake = a.state.energyElecDynBrake
+  energyLoss : b.state.energyLoss = a.state.energyLoss
+
+structure ResSame (a b : RES α) : Prop where
+  energyOutPropulsion : b.state.energyOutPropulsion = a.state.energyOutPropulsion
+  energyAux : b.state.energyAux = a.state.energyAux
+  energyOutElectrical : b.state.energyOutElectrical = a.state.energyOutElectrical
+  energyOutChemical : b.state.energyOutChemical = a.state.energyOutChemical
+  energyLoss : b.state.energyLoss = a.state.energyLoss
+  soc : b.state.soc = a.state.soc
+  energyCapacity : b.energyCapacity = a.energyCapacity
+
+/-- same powertrain kind, same cumulative counters (and SOC / capacity) -/
+def PtSame : Powertrain α → Powertrain α → Prop
+  | .conv fc g e, .conv fc' g' e' => FCSame fc fc' ∧ GenSame g g' ∧ EdrvSame e e'
+  | .bel r e, .bel r' e' => ResSame r r' ∧ EdrvSame e e'
+  | _, _ => False
+
+theorem PtSame.refl (p : Powertrain α) : PtSame p p := by
+  cases p <;> simp only [PtSame] <;> refine ⟨?_, ?_⟩ <;> (try refine ⟨?_, ?_⟩) <;> constructor <;> rfl
+
+/-- `Locomotive::set_cur_pwr_max_out` keeps every cumulative counter, and leaves a non-negative
+    regeneration limit behind (`= 0` asserted for conventional units, `ensure!`d for BELs). -/
+theorem locoSetCurMax_frame {k : Consts α} {l l' : Loco α} {dt : α}
+    (h : locoSetCurMax k l dt = .ok l') :
+    PtSame l.pt l'.pt ∧ 0 ≤ l'.pt.edrv.state.pwrMechRegenMax ∧
+    l'.state.energyOut = l.state.energyOut ∧ l'.state.energyAux = l.state.energyAux ∧
+    l'.state.pwrAux = l.state.pwrAux ∧ l'.assertLimits = l.assertLimits := by
+  unfold locoSetCurMax at h
+  split at h
+  · rename_i fc g e hpt
+    simp only [bind_ok, pure_ok, ite_ok, Bool.not_eq_false, reduceCtorEq,
+      and_false, false_or, Bool.not_eq_eq_eq_not, Bool.not_true] at h
+    obtain ⟨fc', hfc, g', hg, e', he, hz, rfl⟩ := h
+    have hz' := (eqb_iff _ _).mp hz
+    obtain ⟨f1, f2, f3, f4⟩ := fcSetCurMax_frame hfc
+    obtain ⟨g1, g2, g3, g4⟩ := genSetCurMax_frame hg
+    obtain ⟨e1, e2, e3, e4, e5, _⟩ := edrvSetCurMax_frame he
+    rw [hpt]
+    refine ⟨⟨⟨f1, f2, f3, f4⟩, ⟨g1, g2, g3, g4⟩, ⟨e1, e2, e3, e4, e5⟩⟩, ?_, rfl, rfl, rfl, rfl⟩
+    show (0 : α) ≤ e'.state.pwrMechRegenMax
+    rw [hz']
+  · rename_i r e hpt
+    simp only [bind_ok, pure_ok] at h
+    obtain ⟨r', hr, e1, he1, e2, he2, rfl⟩ := h
+    obtain ⟨r1, r2, r3, r4, r5, r6, r7⟩ := resSetCurMax_frame hr
+    obtain ⟨a1, a2, a3, a4, a5, _⟩ := edrvSetCurMax_frame he1
+    obtain ⟨b1, b2, b3, b4, b5, hreg⟩ := edrvSetRegenMax_frame he2
+    rw [hpt]
+    exact ⟨⟨⟨r1, r2, r3, r4, r5, r6, r7⟩,
+      ⟨b1.trans a1, b2.trans a2, b3.trans a3, b4.trans a4, b5.trans a5⟩⟩, hreg, rfl, rfl, rfl, rfl⟩
+
+/-! ### One `solve_energy_consumption` call on a whole unit -/
+
+/-- component-wise description of one accepted locomotive solve -/
+def PtStep (req dt aux : α) (on : Bool) : Powertrain α → Powertrain α → Prop
+  | .conv fc g e, .conv fc' g' e' =>
+      EdrvStep e e' req dt ∧ GenStep g g' e'.state.pwrElecPropIn (if on then aux else 0) dt ∧
+      0 ≤ g'.state.pwrMechIn ∧ FCStep fc fc' g'.state.pwrMechIn dt
+  | .bel r e, .bel r' e' =>
+      EdrvStep e e' req dt ∧
+      ResStep r r' e'.state.pwrElecPropIn
+        (if 0 < e'.state.pwrElecPropIn then aux
+         else mx (mn aux (r.state.pwrPropOutMax - e'.state.pwrElecPropIn)) 0) dt
+  | _, _ => False
+
+theorem convSolve_spec {k : Consts α} {fc : FC α} {g : Gen α} {e : Edrv α} {req dt aux : α}
+    {on al : Bool} {pt : Powertrain α}
+    (h : convSolve k fc g e req dt on aux al = .ok pt) : PtStep req dt aux on (.conv fc g e) pt := by
+  unfold convSolve at h
+  simp only [bind_ok, pure_ok, ensure_ok, exists_const, decide_eq_true_iff] at h
+  obtain ⟨e', he, g', hg, hm, fc', hf, rfl⟩ := h
+  exact ⟨edrvReq_spec he, genReq_spec hg, hm, fcSolve_spec hf⟩
+
+theorem belSolve_spec {k : Consts α} {r : RES α} {e : Edrv α} {req dt aux : α} {pt : Powertrain α}
+    (h : belSolve k r e req dt aux = .ok pt) : PtStep req dt aux true (.bel r e) pt := by
+  unfold belSolve at h
+  simp only [bind_ok, pure_ok] at h
+  obtain ⟨e', he, r', hr, rfl⟩ := h
+  refine ⟨edrvReq_spec he, ?_⟩
+  split_ifs at hr ⊢ with hp
+  · exact resSolve_spec hr
+  · exact resSolve_spec hr
+
+/-- inversion of `locoSolve` -/
+theorem locoSolve_spec {k : Consts α} {l l' : Loco α} {req dt : α} {on : Option Bool}
+    (h : locoSolve k l req dt on = .ok l') :
+    PtStep req dt l.state.pwrAux (on.getD true) l.pt l'.pt ∧
+    l'.state.pwrOut = l'.pt.edrv.state.pwrMechPropOut - l'.pt.edrv.state.pwrMechDynBrake ∧
+    l'.state.energyOut = l.state.energyOut + l'.state.pwrOut * dt ∧
+    l'.state.energyAux = l.state.energyAux + l.state.pwrAux * dt ∧
+    l'.state.pwrAux = l.state.pwrAux := by
+  unfold locoSolve at h
+  simp only [bind_ok, pure_ok] at h
+  obtain ⟨pt, hpt, rfl⟩ := h
+  refine ⟨?_, rfl, rfl, rfl, rfl⟩
+  split at hpt
+  · rename_i fc g e hl; rw [hl]; exact convSolve_spec hpt
+  · rename_i r e hl; rw [hl]
+    have := belSolve_spec hpt
+    cases pt with
+    | conv => exact this.elim
+    | bel => exact this
+
+/-- inversion of `locoSimStep`: set_aux, then set_cur_pwr_max_out, then solve -/
+theorem locoSimStep_inv {k : Consts α} {l l' : Loco α} {req dt : α} {on : Option Bool}
+    (h : locoSimStep k l req dt on = .ok l') :
+    ∃ l1, locoSetCurMax k (locoSetAux l on) dt = .ok l1 ∧ locoSolve k l1 req dt on = .ok l' := by
+  unfold locoSimStep at h
+  simp only [bind_ok, pure_ok, ensure_ok, exists_const] at h
+  obtain ⟨l1, h1, l2, h2, _, rfl⟩ := h
+  exact ⟨l1, h1, h2⟩
+
+/-- every accepted unit solve delivers exactly the requested wheel power -/
+theorem locoSolve_pwrOut {k : Consts α} {l l' : Loco α} {req dt : α} {on : Option Bool}
+    (h : locoSolve k l req dt on = .ok l') : l'.state.pwrOut = req := by
+  obtain ⟨hs, ho, _⟩ := locoSolve_spec h
+  rw [ho]
+  rcases hl : l.pt with ⟨fc, g, e⟩ | ⟨r, e⟩ <;> rcases hl' : l'.pt with ⟨fc', g', e'⟩ | ⟨r', e'⟩ <;>
+    rw [hl, hl'] at hs <;> simp only [PtStep] at hs
+  · show e'.state.pwrMechPropOut - e'.state.pwrMechDynBrake = req
+    rw [hs.1.pwrMechDynBrake]; ring
+  · show e'.state.pwrMechPropOut - e'.state.pwrMechDynBrake = req
+    rw [hs.1.pwrMechDynBrake]; ring
+
+/-! ### Linearity of `sumLeft` (through `sumLeft l = l.sum`) -/
+
+theorem sumLeft_map_mul_right {ι : Type} (l : List ι) (f : ι → α) (c : α) :
+    sumLeft (l.map (fun x => f x * c)) = sumLeft (l.map f) * c := by
+  rw [sumLeft_eq_sum, sumLeft_eq_sum]
+  induction l with
+  | nil => simp
+  | cons x xs ih => simp only [List.map_cons, List.sum_cons, ih]; ring
+
+theorem sumLeft_map_add {ι : Type} (l : List ι) (f g : ι → α) :
+    sumLeft (l.map (fun x => f x + g x)) = sumLeft (l.map f) + sumLeft (l.map g) := by
+  rw [sumLeft_eq_sum, sumLeft_eq_sum, sumLeft_eq_sum]
+  induction l with
+  | nil => simp
+  | cons x xs ih => simp only [List.map_cons, List.sum_cons, ih]; ring
+
+theorem sumLeft_map_congr {ι : Type} (l l' : List ι) (f : ι → α)
+    (h : List.Forall₂ (fun a b => f b = f a) l l') : sumLeft (l'.map f) = sumLeft (l.map f) := by
+  induction h with
+  | nil => rfl
+  | cons hab _ ih => simp only [List.map_cons, sumLeft_cons, ih, hab]
+
+/-- if every element's counter `f` advanced by its power `g` times `dt`, so did the sum -/
+theorem sumLeft_map_step {ι : Type} (l l' : List ι) (f g : ι → α) (dt : α)
+    (h : List.Forall₂ (fun a b => f b = f a + g b * dt) l l') :
+    sumLeft (l'.map f) = sumLeft (l.map f) + sumLeft (l'.map g) * dt := by
+  induction h with
+  | nil => simp [sumLeft_nil]
+  | cons hab _ ih => simp only [List.map_cons, sumLeft_cons, ih, hab]; ring
+
+/-! ### Consist plumbing -/
+
+theorem mapM'_forall2 {σ τ : Type} (f : σ → Res τ) (ls : List σ) (ls' : List τ)
+    (h : mapM' f ls = .ok ls') : List.Forall₂ (fun a b => f a = .ok b) ls ls' := by
+  induction ls generalizing ls' with
+  | nil => simp only [mapM', Res.ok.injEq] at h; subst h; exact .nil
+  | cons x xs ih =>
+    simp only [mapM', bind_ok, pure_ok] at h
+    obtain ⟨y, hy, ys, hys, rfl⟩ := h
+    exact .cons hy (ih ys hys)
+
+/-- `solveUnits` solves unit `i` with share `i`; with as many shares as units nothing is dropped -/
+theorem solveUnits_spec {k : Consts α} {dt : α} {on : Option Bool} (ls : List (Loco α)) (ps : List α)
+    (ls' : List (Loco α)) (h : solveUnits k dt on ls ps = .ok ls') (hlen : ps.length = ls.length) :
+    List.Forall₂ (fun l l' => ∃ p, locoSolve k l p dt on = .ok l') ls ls' ∧
+    ls'.map (·.state.pwrOut) = ps := by
+  induction ls generalizing ps ls' with
+  | nil =>
+    cases ps with
+    | nil => simp only [solveUnits, Res.ok.injEq] at h; subst h; exact ⟨.nil, rfl⟩
+    | cons p ps => simp at hlen
+  | cons l ls ih =>
+    cases ps with
+    | nil => simp at hlen
+    | cons p ps =>
+      simp only [solveUnits, bind_ok, pure_ok] at h
+      obtain ⟨l', hl', ls'', hls, rfl⟩ := h
+      obtain ⟨h1, h2⟩ := ih ps ls'' hls (by simpa using hlen)
+      refine ⟨.cons ⟨p, hl'⟩ h1, ?_⟩
+      simp only [List.map_cons, h2, locoSolve_pwrOut hl']
+
+theorem splitNeg_length {locos : List (Loco α)} {s : ConsistState α} {v : List α}
+    (h : splitNeg locos s = .ok v) : v.length = locos.length := by
+  unfold splitNeg at h
+  simp only [bind_ok, pure_ok, ite_ok, ensure_ok, exists_const] at h
+  obtain ⟨w, hw, rfl⟩ := h
+  rcases hw with ⟨_, rfl⟩ | ⟨_, _, rfl⟩ <;> simp [regenVec]
+
+/-- every power-split policy returns exactly one share per unit -/
+theorem shares_length (k : Consts α) (locos : List (Loco α)) (pdct : Policy) (s : ConsistState α)
+    (req : α) (v : List α)
+    (h : (if 0 < req then
+            (match pdct with
+             | .proportional => pure (splitProp locos s)
+             | .resGreedy => splitGreedy k locos s)
+          else if req < 0 then splitNeg locos s
+          else pure (locos.map (fun _ => 0))) = Res.ok v) : v.length = locos.length := by
+  split_ifs at h
+  · cases pdct
+    · simp only [pure_ok] at h; subst h; simp [splitProp]
+    · simp only [splitGreedy] at h
+      split_ifs at h <;> cases h <;> simp
+  · exact splitNeg_length h
+  · simp only [pure_ok] at h; subst h; simp
+
+/-- inversion of `consistSolve` -/
+theorem consistSolve_inv {k : Consts α} {c c' : Consist α} {req dt : α} {on : Option Bool}
+    (h : consistSolve k c req dt on = .ok c') :
+    ∃ shares : List α, shares.length = c.locos.length ∧
+      solveUnits k dt on c.locos shares = .ok c'.locos ∧
+      c'.state.pwrOut = sumLeft shares ∧
+      c'.state.pwrFuel = sumLeft (c'.locos.map pwrFuelOf) ∧
+      c'.state.pwrReves = sumLeft (c'.locos.map pwrChemOf) ∧
+      c'.state.energyOut = c.state.energyOut + c'.state.pwrOut * dt ∧
+      c'.state.energyFuel = c.state.energyFuel + c'.state.pwrFuel * dt ∧
+      c'.state.energyRes = c.state.energyRes + c'.state.pwrReves * dt ∧
+      c'.state.energyOutPos =
+        (if 0 ≤ c'.state.pwrOut then c.state.energyOutPos + c'.state.pwrOut * dt else c.state.energyOutPos) ∧
+      c'.state.energyOutNeg =
+        (if 0 ≤ c'.state.pwrOut then c.state.energyOutNeg else c.state.energyOutNeg - c'.state.pwrOut * dt) := by
+  unfold consistSolve at h
+  cases hal : c.assertLimits <;>
+  simp only [hal, bind_ok, pure_ok, ensure_ok, exists_const, if_true, if_false, Bool.false_eq_true] at h
+  · obtain ⟨x, hx, x1, hs, rfl⟩ := h
+    exact ⟨x, shares_length _ _ _ _ _ _ hx, hs, rfl, rfl, rfl, rfl, rfl, rfl, rfl, rfl⟩
+  · obtain ⟨_, _, x, hx, _, x1, hs, rfl⟩ := h
+    exact ⟨x, shares_length _ _ _ _ _ _ hx, hs, rfl, rfl, rfl, rfl, rfl, rfl, rfl, rfl⟩
+
+/-- inversion of `consistSimStep` -/
+theorem consistSimStep_inv {k : Consts α} {c c' : Consist α} {req dt : α}
+    (h : consistSimStep k c req dt = .ok c') :
+    ∃ locos1 : List (Loco α) , ∃ c1 : Consist α,
+      mapM' (fun l => locoSetCurMax k l dt) (c.locos.map (fun l => locoSetAux l (some true))) = .ok locos1 ∧
+      c1.locos = locos1 ∧ c1.state.energyOut = c.state.energyOut ∧
+      c1.state.energyFuel = c.state.energyFuel ∧ c1.state.energyRes = c.state.energyRes ∧
+      c1.state.energyOutPos = c.state.energyOutPos ∧ c1.state.energyOutNeg = c.state.energyOutNeg ∧
+      consistSolve k c1 req dt (some true) = .ok c' := by
+  unfold consistSimStep consistSetCurMax consistSetAux at h
+  simp only [bind_ok, pure_ok] at h
+  obtain ⟨c1, ⟨locos1, hm, rfl⟩, hs⟩ := h
+  refine ⟨locos1, _, hm, ?_, ?_, ?_, ?_, ?_, ?_, hs⟩ <;> rfl
+
+/-! ### Per-unit facts used by the consist roll-ups -/
+
+theorem PtSame.fuel_chem {p q : Powertrain α} (h : PtSame p q) (s t : LocoState α) (a b : Bool) (x y u v : α) :
+    energyFuelOf (⟨q, t, b, u, v⟩ : Loco α) = energyFuelOf (⟨p, s, a, x, y⟩ : Loco α) ∧
+    energyChemOf (⟨q, t, b, u, v⟩ : Loco α) = energyChemOf (⟨p, s, a, x, y⟩ : Loco α) := by
+  cases p <;> cases q <;> simp only [PtSame] at h
+  · exact ⟨h.1.energyFuel, rfl⟩
+  · exact ⟨rfl, h.1.energyOutChemical⟩
+
+theorem locoSetCurMax_rollup {k : Consts α} {l l' : Loco α} {dt : α}
+    (h : locoSetCurMax k l dt = .ok l') :
+    energyFuelOf l' = energyFuelOf l ∧ energyChemOf l' = energyChemOf l ∧
+    l'.state.energyOut = l.state.energyOut := by
+  obtain ⟨hs, _, ho, _⟩ := locoSetCurMax_frame h
+  obtain ⟨pt, st, al, x, y⟩ := l
+  obtain ⟨pt', st', al', x', y'⟩ := l'
+  obtain ⟨h1, h2⟩ := PtSame.fuel_chem hs st st' al al' x y x' y'
+  exact ⟨h1, h2, ho⟩
+
+theorem locoSetAux_rollup (l : Loco α) (on : Option Bool) :
+    energyFuelOf (locoSetAux l on) = energyFuelOf l ∧ energyChemOf (locoSetAux l on) = energyChemOf l ∧
+    (locoSetAux l on).state.energyOut = l.state.energyOut := ⟨rfl, rfl, rfl⟩
+
+theorem locoSolve_rollup {k : Consts α} {l l' : Loco α} {req dt : α} {on : Option Bool}
+    (h : locoSolve k l req dt on = .ok l') :
+    energyFuelOf l' = energyFuelOf l + pwrFuelOf l' * dt ∧
+    energyChemOf l' = energyChemOf l + pwrChemOf l' * dt ∧
+    l'.state.energyOut = l.state.energyOut + l'.state.pwrOut * dt := by
+  obtain ⟨hs, _, ho, _⟩ := locoSolve_spec h
+  refine ⟨?_, ?_, ho⟩ <;>
+  · obtain ⟨pt, st, al, x, y⟩ := l
+    obtain ⟨pt', st', al', x', y'⟩ := l'
+    cases pt <;> cases pt' <;> simp only [PtStep] at hs <;>
+      simp only [energyFuelOf, pwrFuelOf, energyChemOf, pwrChemOf, zero_mul, add_zero]
+    first | exact hs.2.2.2.energyFuel | exact hs.2.energyOutChemical
+
 end Altrios.Proofs.LedgerL
